@@ -99,3 +99,61 @@ def sem_check(prop_id, tier, seed, families, configs=None, sample=None):
 @prop("C01")
 def check_c01(prop_id, tier, seed):
     return sem_check(prop_id, tier, seed, ["F1", "F1L", "F2", "F3", "F4", "F4S", "F5", "F5S", "F6", "F7"])
+
+
+# ---------------------------------------------------------------- index families (MC_Idx)
+def idx_scenarios(prop_id, tier, seed, sample, nprobes):
+    import random
+    depth = {"quick": 3, "thorough": 4}[tier]
+    consts = {"MaxDepth": depth, "MaxRows": 3, "MaxIdx": 2}
+    wd_out = {}
+    scen, stats = vc.gen_scenarios(prop_id, "MC_Idx", "MC_Idx.cfg", ec.ENGINE_DEPS, consts=consts, workers=8, timeout=3000)
+    probes = stats.get("probes")
+    if probes is None:
+        # the probe list is printed once by the model (ASSUME PrintT(<<"PROBES", ...>>)): regenerate it with a depth-0 run
+        rc, out = vc.tlc("MC_Idx", "MC_Idx_probes.cfg", os.path.join(vc.RUN, "gen_probes_%d" % os.getpid()), workers=1, timeout=300)
+        probes = vc.extract_tagged(out, "PROBES")[-1]
+    rnd = random.Random(seed)
+    stats["exhaustive"] = True
+    if sample and len(scen) > sample:
+        scen = rnd.sample(scen, sample)
+        stats["exhaustive"] = False
+    out = []
+    for sc in scen:
+        ps = probes if nprobes >= len(probes) else rnd.sample(probes, nprobes)
+        out.append({"id": sc["id"], "steps": sc["steps"] + ps})
+    return out, stats
+
+
+IDX_CONFIGS = {
+    "default": {"name": "default", "args": ["--idx"]},
+    "noindex": {"name": "noindex", "args": ["--elide-index"]},
+    "spill": {"name": "spill", "args": ["--index-budget", "1", "--idx"]},
+    "disk": {"name": "disk", "args": ["--idx"], "env": {"VIBESQL_VERIF_FORCE_DISK_INDEX": "1"}},
+}
+
+
+def idx_check(prop_id, tier, seed, cfg_names):
+    t0 = time.time()
+    sample = {"quick": 1500, "thorough": 12000}[tier]
+    nprobes = {"quick": 14, "thorough": 24}[tier]
+    scen, stats = idx_scenarios(prop_id, tier, seed, sample, nprobes)
+    parts = [{"name": "idx", "scenarios": scen, "configs": [IDX_CONFIGS[c] for c in cfg_names]}]
+    wd = os.path.join(vc.RUN, "work_%s" % prop_id)
+    verdict, events, _ = ec.run_parts(prop_id, parts, wd)
+    return ec.finish(prop_id, tier, seed, t0, verdict, events, stats)
+
+
+@prop("C02")
+def check_c02(prop_id, tier, seed):
+    return idx_check(prop_id, tier, seed, ["default", "noindex"])
+
+
+@prop("C15")
+def check_c15(prop_id, tier, seed):
+    return idx_check(prop_id, tier, seed, ["default"])
+
+
+@prop("C16")
+def check_c16(prop_id, tier, seed):
+    return idx_check(prop_id, tier, seed, ["default", "spill", "disk"])
